@@ -159,7 +159,8 @@ def fast_cases(tier, seed=0):
     if quick:
         sp2 = [[[1, "uniform", 3], [1, "uniform", 3]], [[2, "uniform", 4], [2, "uniform", 5]], [[3, "uniform", 6], [2, "uniform", 4]],
                [[3, "U4", [1, 2, 1]], [2, "G3", [1, 1]]], [[2, "uniform", 5], [2, "uniform", 3]]]
-        sp3 = [[[2, "uniform", 3], [2, "uniform", 4], [1, "uniform", 3]]]
+        # descending and ascending degree order (the band widths of the three directions are all different)
+        sp3 = [[[2, "uniform", 3], [2, "uniform", 4], [1, "uniform", 3]], [[1, "uniform", 2], [2, "uniform", 3], [3, "uniform", 3]]]
     else:
         sp2 = [[[p1, "uniform", n1], [p2, "uniform", n2]] for p1 in (1, 2, 3) for p2 in (1, 2, 3)
                for n1, n2 in ((2, 2), (3, 3), (5, 5), (2, 5), (5, 3))]
@@ -167,6 +168,7 @@ def fast_cases(tier, seed=0):
                 [[1, "U3", [1, 1]], [4, "U2", [2]]], [[2, "G4", [2, 1]], [2, "U4", [1, 1, 1]]]]
         sp3 = [[[p, "uniform", n]] * 3 for p in (1, 2) for n in (2, 3)]
         sp3 += [[[2, "uniform", 3], [2, "uniform", 4], [1, "uniform", 3]], [[3, "uniform", 4], [2, "U2", [1]], [1, "U3", [1, 1]]]]
+        sp3 += [[[pp, "uniform", 2 + (pp == 2)] for pp in perm] for perm in itertools.permutations((1, 2, 3))]
     g2 = ["bspline_quarter_annulus", "quarter_annulus", geos2(0)[2]]      # fixed payload: the ACA outcome depends on it
     g3 = ["twisted_box", geos3(0)[3]]
     for which in ("mass", "stiffness"):
